@@ -245,9 +245,9 @@ def run(ctx):
     traces += traces2
     dirs += dirs2
     # ---- G3: larger programs by simulation ------------------------------------------------
-    cfgs = CFG.format(maxdir=12 if q else 16, maxnest=4, shard="@SHARD@", nshards=1, rich="TRUE")
+    cfgs = CFG.format(maxdir=12 if q else 16, maxnest=4, shard=0, nshards=1, rich="TRUE")
     sim = runner.sharded_tlc(ctx, "GenC01", cfgs, 8 if q else 16, "GenC01_sim", timeout=600,
-                             simulate=f"num={60 if q else 600}", depth=40, seed=ctx.seed + 1)
+                             simulate=f"num={10 if q else 100}", depth=40, seed=ctx.seed + 1)
     seen = set()
     simc = []
     for c in sim:
